@@ -42,14 +42,14 @@ def run_shard(shard, ctx):
     diag = "Diag" in kind
     vis = [0, 100, objs.HARD] if tier == "quick" else [0, 1, 100, 101, objs.HARD]
     lists = al.all_index_lists(D, proper=True)
-    if D >= 5:
-        lists = [l for l in lists if len(l) <= 2 or len(l) == D - 1][:120]
+    if D >= 6:
+        lists = [l for l in lists if len(l) <= 2] + [l for l in lists if len(l) > 2][::7]
     N = 2 if R != 2 else 3
     for vi in vis:
         tag = ("c06", kind, D, R)
         Sig = objs.spd_batch(D, R, vi, seed, tag, diag=diag)
         mu = objs.vec_batch(D, R, vi, seed, tag)
-        which = ("fresh", "sliced_neg", "updated", "Sigma+Lambda", "queried", "replaced_mu", "prod_conjugate", "conditioned", "prod_linear", "prod_constant", "hadamard_onerank", "multiply_onerank", "joint_of_cond") if (vi == 0 and D <= 3) else ("fresh",)
+        which = ("fresh", "sliced_neg", "updated", "Sigma+Lambda", "queried", "replaced_mu", "prod_conjugate", "conditioned", "prod_linear", "prod_constant", "hadamard_onerank", "multiply_onerank", "joint_of_cond", "hadamard_linear_bcast", "hadamard_linear_bcast>marginal", "hadamard_linear_bcast>slice") if (vi == 0 and D <= 3) else ("fresh",)
         for prep, mkp, mu_e, Sig_e in objs.pdf_variants(kind, Sig, mu, which=which):
             with ctx.guard("prepare." + prep, dict(prep=prep)) as g:
                 p = mkp()
@@ -101,8 +101,8 @@ def cond_on(ctx, shard, tier, p, kind, D, R, N, vi, mu, Sig, lists, prep):
                         c = p.condition_on_explicit(objs.idx(b, sum(b)), objs.idx(a, sum(a) + 1))
                     cx = c.condition_on_x(J(x[:, b]))
                     lp = np.asarray(cx.evaluate_ln(J(x[:, a])))  # [R*N, N]
-                    dens = np.asarray(cx(J(x[:, a]))) if len(b) == 1 or vi == objs.HARD else None  # the density form, as the statement is written
-                    dmarg = np.asarray(p.get_marginal(J(b))(J(x[:, b]))) if dens is not None else None
+                    dens = np.asarray(cx(J(x[:, a])))  # the density form, as the statement is written: p(x_a|x_b) * p(x_b), both from the library
+                    dmarg = np.asarray(p.get_marginal(objs.idx(b, sum(b) + 2))(J(x[:, b])))
                 if not g.ok:
                     continue
                 lhs = np.zeros((R, N))
